@@ -21,6 +21,7 @@ from . import cnative, common
 PID = "C16"
 TARGETS = ["cpu_serial", "cpu_openmp", "opencl", "cuda"]
 XSETS = [("cpu_serial",), ("cpu_openmp",), ("opencl",), ("cuda",), ("cpu_serial", "cpu_openmp"), ("opencl", "cuda"), ("cpu_serial", "cpu_openmp", "opencl", "cuda")]
+LIMITS = ["n", "n-1", "n/2", "(n+1)/3", "n-n%2"]  # never above n: the launch provides n work-items
 SMALL_N = [0, 1, 2, 3, 5, 8, 9]
 BIG_N = [255, 256, 257, 513]
 GUARD = 8
@@ -31,7 +32,7 @@ def describe(tier):
         rule="all well-formed kernel skeletons: file-scope prefix of 0-2 lines from {plain text, #define //only_for_context X, //include_file f for_context X, "
         "/*gpufun*/ helper with /*gpuglmem*/ and /*restrict*/ parameters}; one /*gpukern*/ function with 1-2 vectorised blocks (both opening spellings used in "
         "the repository, distinct loop variables), bodies of 1-2 lines from {counter increment, marker store restricted by //only_for_context X, "
-        "helper call}; X over the 4 singletons, both CPU, both GPU, all four. Every skeleton is built and run on all targets: serial, OpenMP(2), OpenMP(auto) "
+        "helper call}; block limits n and the expressions n-1, n/2, (n+1)/3, n-n%2; X over the 4 singletons, both CPU, both GPU, all four. Every skeleton is built and run on all targets: serial, OpenMP(2), OpenMP(auto) "
         "through ContextCpu; cuda through the real ContextCupy (block sizes 1, 2, 4 and default 256) and opencl through the real ContextPyopencl, devices "
         "replaced by host builds of the real specialised text. n in {0,1,2,3,5,8,9} (+ {255,256,257,513} with block 256). Oracle: each block's counter is "
         "exactly its increment count on [0,n) and 0 on a guard band beyond; restricted lines, defines and includes are active exactly on the named targets; "
@@ -75,6 +76,12 @@ def skeletons(tier):
                     continue
                 sid += 1
                 yield dict(id=sid, prefix=pre, blocks=[dict(spell=sp, var="ii", body=b, ctr=0)])
+            # the limit of a block is any whitespace-free expression, not only an identifier
+            if pi < 3 or not quick:
+                for lim in LIMITS[1:]:
+                    for b in bodies[:2]:
+                        sid += 1
+                        yield dict(id=sid, prefix=pre, blocks=[dict(spell=sp, var="ii", body=b, ctr=0, limit=lim)])
         # two blocks
         for sp1, sp2 in itertools.product("AB", repeat=2):
             for same in (False,):
@@ -92,7 +99,7 @@ def render(sk, incdir):
     k = sk["id"]
     name = "kk_%d" % k
     lines = []
-    exp = dict(name=name, counts=[0, 0], marks=[], define=None, include=None, plain=[])
+    exp = dict(name=name, counts=[0, 0], limits=["n", "n"], marks=[], define=None, include=None, plain=[])
     for p in sk["prefix"]:
         if p[0] == "plain":
             l = "/* plain file-scope text of skeleton %d */" % k
@@ -113,10 +120,12 @@ def render(sk, incdir):
     nmark = 0
     for b in sk["blocks"]:
         v = b["var"]
+        lim = b.get("limit", "n")
+        exp["limits"][b["ctr"]] = lim
         if b["spell"] == "A":
-            lines.append("  int %s=0; //vectorize_over %s n" % (v, v))
+            lines.append("  int %s=0; //vectorize_over %s %s" % (v, v, lim))
         else:
-            lines.append("  for (int %s=0; %s<n; %s++){ //vectorize_over %s n" % (v, v, v, v))
+            lines.append("  for (int %s=0; %s<%s; %s++){ //vectorize_over %s %s" % (v, v, lim, v, v, lim))
         for st in b["body"]:
             if st[0] == "inc":
                 lines.append("    c%d[%s] += 1;" % (b["ctr"], v))
@@ -264,15 +273,20 @@ def check_counts(exp, n, c0, c1, fl, target, label):
     """returns failure text or None"""
     for ci, c in enumerate((c0, c1)):
         want = exp["counts"][ci]
-        if not (c[:n] == want).all():
-            i = int(np.nonzero(c[:n] != want)[0][0])
-            return "once-per-index", "counter of block %d at index %d is %d, expected %d (n=%d, %s)" % (ci, i, int(c[i]), want, n, label)
-        if c[n:].any():
-            i = n + int(np.nonzero(c[n:])[0][0])
-            return "guard-band", "index %d >= n=%d was executed (%s)" % (i, n, label)
+        # the body runs for the indices below the block's limit on the CPU targets and (guarded) on CUDA; on OpenCL once per
+        # work-item, i.e. for every index below the launch size n (no guard is generated there, by design)
+        lim = max(0, int(eval(exp["limits"][ci].replace("/", "//"), {"n": n})))
+        hi = n if target == "opencl" else lim
+        if not (c[:hi] == want).all():
+            i = int(np.nonzero(c[:hi] != want)[0][0])
+            return "once-per-index", "counter of block %d at index %d is %d, expected %d (n=%d, limit %s=%d, %s)" % (ci, i, int(c[i]), want, n, exp["limits"][ci], lim, label)
+        if c[hi:].any():
+            i = hi + int(np.nonzero(c[hi:])[0][0])
+            return "guard-band", "index %d >= limit (%s = %d, n=%d) was executed (%s)" % (i, exp["limits"][ci], hi, n, label)
+    ran = (n if target == "opencl" else max(0, int(eval(exp["limits"][0].replace("/", "//"), {"n": n})))) >= 1
     if n >= 1:
         for fi, X in exp["marks"]:
-            want = 7 if active(target, X) else 0
+            want = 7 if (active(target, X) and (ran or exp["limits"][0] == "n")) else 0
             if fl[fi] != want:
                 return "only-for-context", "line restricted to {%s} %s on %s (n=%d)" % (xs(X), "inactive" if want else "active", target, n)
         for key, fi in (("define", 5), ("include", 6)):
